@@ -9,7 +9,7 @@ references and that is older than d disappears; afterwards it is served neither 
 import random
 
 from lib import common, gen
-from lib.hist import KVStore, SQLStore
+from lib.hist import KVStore, SQLStore, address
 from lib.kvimpl import model_event
 
 THEOREMS_TIED = ["C08_kv_delete_frame", "C08_kv_delete_complete", "C08_kv_delete_complete_reachable", "C08_sql_delete_exact", "C08_sql_delete_frame", "C08_sql_delete_complete"]
@@ -50,6 +50,11 @@ def gen_history(rng, n):
             e = gen.gen_event(rng, known_ids=[x["id"] for x in evs], authors=AUTH, kinds=[1, 7, 4, 1],
                               times=[T0, T0 + 1, T0 + 2, T0 + 50])
             e["tags"] = [t for t in e["tags"] if t and t[0] not in ("expiration", "d")]
+            if rng.random() < 0.2:
+                # replaceable kinds: what a NIP-09 address tag ("a", "<kind>:<pubkey>:<d>") can name
+                e["kind"] = rng.choice([0, 10002, 30000, 30000])
+                if e["kind"] == 30000:
+                    e["tags"].insert(0, ["d", rng.choice(["x", "y", ""])])
             if rng.random() < 0.15:
                 # published under a NIP-26 delegation: the delegator is *not* the author of this event
                 e["tags"].append(["delegation", rng.choice([a for a in AUTH if a != e["pubkey"]] or AUTH), "kind=1", "00" * 64])
@@ -66,6 +71,12 @@ def gen_history(rng, n):
                 # a deletion with no usable e reference at all: no tags, only NIP-09 address tags, only malformed ids, p tags
                 tags = rng.choice([[], [["a", "1:%s:" % tgt["pubkey"]]], [["e", "zz"]], [["e"]], [["p", tgt["pubkey"]]],
                                    [["e", tgt["id"][:40]]], [["a", "30000:%s:x" % tgt["pubkey"]], ["e", ""]]])
+            if rng.random() < 0.3:
+                # NIP-09 address tags: the coordinates of stored replaceable events, of the deletion's own author and of others
+                for c in rng.sample(targets, min(len(targets), rng.choice([1, 2]))):
+                    a = address(c)
+                    if a is not None:
+                        tags.append(["a", "%d:%s:%s" % (a[1], a[0], a[2] or "")])
             rr = rng.random()
             if rr < 0.07:
                 tags.insert(rng.randrange(len(tags) + 1), ["e", "zz"])
@@ -115,14 +126,20 @@ def run_history(report, drv, store, evs, tag):
         payload = {"backend": store.backend, "events": list(prefix)}
         removed = {i for i in before - after if i != n["id"]}
         if n["kind"] != 5:
-            if removed:
-                report.property_failure("%s: a kind-%d event removed %d events" % (store.backend, n["kind"], len(removed)), payload, None)
+            # (a replaceable event may supersede the older versions of its own address: C09's business)
+            foreign = {r for r in removed if address(n) is None or r not in by_id or address(by_id[r]) != address(n)}
+            if foreign:
+                report.property_failure("%s: a kind-%d event removed %d events" % (store.backend, n["kind"], len(foreign)), payload, None)
             continue
         refs = ref_ids(n)
-        # frame
+        coords = {tuple(t[1].split(":", 2)) for t in n["tags"] if len(t) >= 2 and t[0] == "a" and isinstance(t[1], str) and t[1].count(":") >= 2}
+        # frame: whatever goes was published by the deletion's author and is referenced by it (by id, or — NIP-09 allows it, the
+        # relay does not do it — by its address)
         for r in removed:
             ev = by_id.get(r)
-            if ev is None or ev["pubkey"] != n["pubkey"] or r not in refs:
+            a = address(ev) if ev else None
+            by_addr = a is not None and (str(a[1]), a[0], a[2] or "") in coords
+            if ev is None or ev["pubkey"] != n["pubkey"] or not (r in refs or by_addr):
                 report.property_failure(
                     "%s: deletion %s by %s.. removed %s (author %s.., referenced: %s)"
                     % (store.backend, n["id"][:8], n["pubkey"][:6], r[:8], ev["pubkey"][:6] if ev else "?", r in refs),
